@@ -114,7 +114,7 @@ Section Run.
       match call rq "Query" (lookup_doc l ss ids) with
       | RpFail k =>
           Ok {| a_results := a_results a1 ++ [{| er_url := url; er_ip := ip; er_data := RArr [] |}]; a_requests := a_requests a1;
-                a_errors := a_errors a1 ++ [{| ge_kind := k; ge_path := step_error_path ip ss; ge_service := false |}]; a_count := count |}
+                a_errors := a_errors a1 ++ [{| ge_kind := k; ge_path := step_error_path ip ss; ge_service := true |}]; a_count := count |}
       | RpErrors es partial =>
           Ok {| a_results := a_results a1 ++ [{| er_url := url; er_ip := ip; er_data := RArr (if lk_array l then unwrap partial else []) |}];
                 a_requests := a_requests a1; a_errors := a_errors a1 ++ errors_of st es; a_count := count |}
@@ -151,7 +151,7 @@ Section Run.
       match call rq parent ss with
       | RpFail k =>
           Ok {| a_results := a_results a1 ++ [{| er_url := url; er_ip := ip; er_data := RNil |}]; a_requests := a_requests a1;
-                a_errors := a_errors a1 ++ [{| ge_kind := k; ge_path := step_error_path ip ss; ge_service := false |}]; a_count := a_count a1 |}
+                a_errors := a_errors a1 ++ [{| ge_kind := k; ge_path := step_error_path ip ss; ge_service := true |}]; a_count := a_count a1 |}
       | RpErrors es partial =>
           Ok {| a_results := a_results a1 ++ [{| er_url := url; er_ip := ip; er_data := partial |}]; a_requests := a_requests a1;
                 a_errors := a_errors a1 ++ errors_of st es; a_count := a_count a1 |}
@@ -203,11 +203,8 @@ Definition gateway (G : generation) (fschema : schema) (W : world) (op : operati
       | Err _ => Ok {| oc_response := {| r_data := None; r_errors := errs ++ [{| ge_kind := EInternal; ge_path := []; ge_service := false |}] |};
                        oc_requests := a_requests a; oc_plan := steps; oc_merged := None; oc_op := ss |}
       | Ok merged =>
-        match merged with
-        | RNil =>   (* a single failed result: bubbleUp over a nil map reports nothing; the writer prints null *)
-            Ok {| oc_response := {| r_data := Some JNull; r_errors := errs |}; oc_requests := a_requests a; oc_plan := steps;
-                  oc_merged := Some merged; oc_op := ss |}
-        | _ =>
+        (* a single failed result merges to a nil map[string]interface{}: the null pass and the writer see an empty map *)
+        let merged := match merged with RNil => RMap [] | m => m end in
           match bubble fuel fschema None ss merged [] with
           | BErr _ => Ok {| oc_response := {| r_data := None; r_errors := errs ++ [{| ge_kind := EInternal; ge_path := []; ge_service := false |}] |};
                             oc_requests := a_requests a; oc_plan := steps; oc_merged := Some merged; oc_op := ss |}
@@ -216,7 +213,6 @@ Definition gateway (G : generation) (fschema : schema) (W : world) (op : operati
               Ok {| oc_response := {| r_data := Some data; r_errors := errs ++ bubble_errors berrs |};
                     oc_requests := a_requests a; oc_plan := steps; oc_merged := Some merged; oc_op := ss |}
           end
-        end
       end
     end
   end.
